@@ -64,6 +64,8 @@ class C07(Prop):
             f = lang.N('geq', lang.V('x'), lang.C(1.0))
         names = lang.variables(f) or ['x']
         case = {'formula': f, 'kind': kind, 'pseed': rng.randrange(1 << 30)}
+        if rng.random() < 0.1:
+            case['useed'] = rng.randrange(1 << 30)
         if kind.startswith('dt'):
             case['data'] = lang.gen_trace(rng, names, rng.randint(1, 16))
         else:
@@ -103,6 +105,10 @@ class C07(Prop):
             v.skip = 'not Boolean-typed'
             return v
         text = lang.to_text(f)
+        if case.get('useed') is not None:
+            import random
+            text = lang.unit_text(f, random.Random(case['useed']))       # same durations, unit-suffix notation
+            v.info['class:unit-suffixes'] = 1
         dense = kind.startswith('ct')
         rng = random.Random(case.get('pseed', 0))
         v.info['kind:' + kind] = 1
